@@ -438,3 +438,6 @@ HARNESSES = [
     Harness("C15.rcrit_scalar", rcrit_scalar, functions=_FN, assumptions=_A,
             params={"quick": [{"shape": s} for s in _SHAPES], "thorough": [{"shape": s} for s in _SHAPES]}),
 ]
+
+from harness.c15_extra import EXTRA as _EXTRA
+HARNESSES = HARNESSES + _EXTRA
